@@ -1,4 +1,108 @@
 package main
 
-func runReplayHarness(eng *Engine, prop string, r *FuncResult, o *Obligation, path string) bool { return false }
-func runReplayFile(t string, m map[string]any) int                                            { return 0 }
+// Replay harnesses: for some function families a hand-written in-package differential test exists
+// under /verif/replay/harness. When an obligation of such a function fails, the test is run against the
+// tree under check (go test -overlay, nothing is written into the tree). The test drives the REAL code
+// with the inputs of the solver's model where it can use them, then with a fixed battery of edge and
+// pseudo-random inputs, and compares with an independent oracle (math/big, the specification). If it
+// finds an input on which the real code violates the property it prints "GOCV-REPRODUCED <input>" and
+// fails; only then is the violation reported as reproduced.
+
+import (
+	"encoding/json"
+	"os"
+	"os/exec"
+	"path/filepath"
+	"strings"
+)
+
+type harnessEntry struct {
+	Props []string `json:"props"` // properties whose violations this battery can reproduce
+	Pkg   string   `json:"pkg"`   // package directory relative to the repository root
+	Test  string   `json:"test"`  // comma-separated test files under /verif/replay/harness
+	Run   map[string]string `json:"run"` // property -> -run pattern of the tests that exercise it
+	Race  bool     `json:"race"`  // run with the race detector
+}
+
+func loadHarnesses() []harnessEntry {
+	data, err := os.ReadFile(filepath.Join(verifRoot, "replay", "harness.json"))
+	if err != nil {
+		return nil
+	}
+	var hs []harnessEntry
+	json.Unmarshal(data, &hs)
+	return hs
+}
+
+var harnessDone = map[string]string{} // test name -> cached outcome ("yes:<output>" / "no:<output>")
+
+func runReplayHarness(eng *Engine, prop string, r *FuncResult, o *Obligation, path string) bool {
+	for _, h := range loadHarnesses() {
+		if !contains(h.Props, prop) {
+			continue
+		}
+		key := h.Pkg + "/" + prop + "@" + eng.repo
+		res, ok := harnessDone[key]
+		if !ok {
+			var files []string
+			for _, f := range strings.Split(h.Test, ",") {
+				files = append(files, filepath.Join(verifRoot, "replay", "harness", strings.TrimSpace(f)))
+			}
+			args := []string{eng.repo, h.Pkg, strings.Join(files, ","), h.Run[prop]}
+			if h.Race {
+				args = append(args, "-race")
+			}
+			cmd := exec.Command(filepath.Join(verifRoot, "tools", "run_replay.sh"), args...)
+			cmd.Env = append(os.Environ(), "GOCV_REPLAY_FILE="+path)
+			out, err := cmd.CombinedOutput()
+			if err != nil && (strings.Contains(string(out), "GOCV-REPRODUCED") || strings.Contains(string(out), "--- FAIL")) && !strings.Contains(string(out), "[build failed]") {
+				res = "yes:" + string(out)
+			} else {
+				res = "no:" + string(out)
+			}
+			harnessDone[key] = res
+		}
+		// record the outcome in the replay file
+		data, err := os.ReadFile(path)
+		if err == nil {
+			m := map[string]any{}
+			json.Unmarshal(data, &m)
+			m["replay_test"] = h.Test
+			m["replay_test_name"] = h.Run[prop]
+			m["replay_race"] = h.Race
+			m["replay_pkg"] = h.Pkg
+			m["replay_output"] = trunc(res[strings.Index(res, ":")+1:], 4000)
+			m["reproduced_on_real_code"] = strings.HasPrefix(res, "yes:")
+			nd, _ := json.MarshalIndent(m, "", " ")
+			os.WriteFile(path, nd, 0o644)
+		}
+		if strings.HasPrefix(res, "yes:") {
+			return true
+		}
+	}
+	return false
+}
+
+// runReplayFile re-runs the harness recorded in a replay file against /repo.
+func runReplayFile(t string, m map[string]any) int {
+	name, _ := m["replay_test_name"].(string)
+	pkg, _ := m["replay_pkg"].(string)
+	if name == "" || pkg == "" {
+		return 0
+	}
+	var files []string
+	for _, f := range strings.Split(t, ",") {
+		files = append(files, filepath.Join(verifRoot, "replay", "harness", strings.TrimSpace(f)))
+	}
+	args := []string{"/repo", pkg, strings.Join(files, ","), name}
+	if rc, _ := m["replay_race"].(bool); rc {
+		args = append(args, "-race")
+	}
+	cmd := exec.Command(filepath.Join(verifRoot, "tools", "run_replay.sh"), args...)
+	out, err := cmd.CombinedOutput()
+	os.Stdout.Write(out)
+	if err != nil && (strings.Contains(string(out), "GOCV-REPRODUCED") || strings.Contains(string(out), "--- FAIL")) && !strings.Contains(string(out), "[build failed]") {
+		return 1
+	}
+	return 0
+}
